@@ -61,7 +61,7 @@ package utils
 
 // the tolerance test of the Choquet tie groups: absolute difference, bound included
 //@ func FloatsAreEqual
-//@   property C03 C02 C01 C09 C11 C18
+//@   property C03 C02 C01 C09 C11 C18 C04 C07 C15
 //@   nopanic
 //@   ensures [absolute_tolerance] result <==> abs(expected - actual) <= epsilon
 
